@@ -56,6 +56,26 @@ def pool(le, rng):
     return syms
 
 
+def spec_of(a, le):
+    """A description from which the very same kind of symbol object can be rebuilt (plain, wrapped user object, WITH)."""
+    if isinstance(a, le.LicenseWithExceptionSymbol):
+        return ['with', spec_of(a.license_symbol, le), spec_of(a.exception_symbol, le)]
+    if isinstance(a, le.LicenseSymbolLike):
+        w = a.wrapped
+        return ['like', type(w).__name__, w.key, bool(w.is_exception), list(getattr(w, 'aliases', ()) or ())]
+    return ['plain', a.key, bool(a.is_exception), list(a.aliases or ())]
+
+
+def build_spec(spec, le):
+    if spec[0] == 'with':
+        return le.LicenseWithExceptionSymbol(build_spec(spec[1], le), build_spec(spec[2], le))
+    if spec[0] == 'like':
+        if spec[1] == 'UserLic':
+            return le.LicenseSymbolLike(UserLic(spec[2], spec[3], aliases=tuple(spec[4])))
+        return le.LicenseSymbolLike(OtherLic(spec[2], spec[3]))
+    return le.LicenseSymbol(spec[1], is_exception=spec[2], aliases=tuple(spec[3]))
+
+
 def fields(a, le):
     if isinstance(a, le.LicenseWithExceptionSymbol):
         return ('W', fields(a.license_symbol, le), fields(a.exception_symbol, le))
@@ -133,7 +153,8 @@ def run(rep, tier, seed):
         rep.count('pairs')
         err = oracle_pair(a, b, le)
         if err:
-            rep.violations.append({'key': 'pair', 'kind': 'pair', 'a': enc_atom(a), 'b': enc_atom(b), 'what': err})
+            rep.violations.append({'key': 'pair', 'kind': 'pair', 'a': enc_atom(a), 'b': enc_atom(b), 'what': err,
+                                   'spec_a': spec_of(a, le), 'spec_b': spec_of(b, le)})
         elif got != r:
             rep.broken = getattr(rep, 'broken', []) + [
                 'correspondence C13/pair: model %r implementation %r for %r, %r' % (r, got, a, b)]
@@ -190,8 +211,11 @@ def replay(payload):
         err = oracle_key(payload['text'], le)
         return (err is None, err or 'key rule holds')
     if payload.get('kind') == 'pair':
-        a = build_expr([0, payload['a']])
-        b = build_expr([0, payload['b']])
+        if 'spec_a' in payload:
+            a, b = build_spec(payload['spec_a'], le), build_spec(payload['spec_b'], le)
+        else:
+            a = build_expr([0, payload['a']])
+            b = build_expr([0, payload['b']])
         err = oracle_pair(a, b, le)
         return (err is None, err or 'pair laws hold')
     return (True, 'nothing to replay for this kind')
